@@ -59,6 +59,8 @@ class FlowEmit:
                 if key not in env: die("self field %s not declared" % e[2])
                 return env[key][0], env[key][1]
             t, ty = self.ex(base, env)
+            if ty.startswith("T(") and e[2] in ("0", "1") and ty.count(",") == 1 and "(" not in ty[2:-1]:
+                return "%s.%s" % (t, "1" if e[2] == "0" else "2"), ty[2:-1].split(",")[int(e[2])]
             if ty.startswith("S:"):
                 st = self.structs[ty[2:]]
                 for f, fty in st["fields"]:
@@ -146,8 +148,38 @@ class FlowEmit:
             text = text.replace("{%s}" % key, env[key][0])
         return "(" + text + ")", ret
 
+    def zip_idiom(self, e):
+        """X.iter().zip(Y.iter()).map(|x| BODY)[.cloned()].collect()  ->  (X, Y, param, BODY) or None"""
+        if not (e[0] == "mcall" and e[2] == "collect" and not e[3]): return None
+        r = e[1]
+        if r[0] == "mcall" and r[2] == "cloned" and not r[3]: r = r[1]
+        if not (r[0] == "mcall" and r[2] == "map" and len(r[3]) == 1 and r[3][0][0] == "closure" and len(r[3][0][1]) == 1): return None
+        z = r[1]
+        if not (z[0] == "mcall" and z[2] == "zip" and len(z[3]) == 1): return None
+        a, b = z[1], z[3][0]
+        if not (a[0] == "mcall" and a[2] == "iter" and not a[3] and b[0] == "mcall" and b[2] == "iter" and not b[3]): return None
+        return a[1], b[1], r[3][0][1][0], r[3][0][2]
+
+    def zip_parts(self, e, env):
+        """-> (function text, X text, Y text, element type, fallible)"""
+        X, Y, p, body = self.zip_idiom(e)
+        x, xty = self.ex(X, env); y, yty = self.ex(Y, env)
+        if not (xty.startswith("L(") and yty.startswith("L(")): die("zip over non-lists")
+        benv = dict(env); benv[p] = ("(za_, zb_)", "T(%s,%s)" % (xty[2:-1], yty[2:-1]), False)
+        fallible = body[0] == "mcall" and body[2] in ("unwrap", "expect")
+        if fallible: body = body[1]
+        b, bty = self.ex(body, benv)
+        if fallible:
+            if not bty.startswith("O("): die("unwrap of a non-option inside a closure")
+            bty = bty[2:-1]
+        return "(fun za_ zb_ => %s)" % b, x, y, bty, fallible
+
     def mcall(self, e, env):
         recv, name, args = e[1], e[2], e[3]
+        if self.zip_idiom(e) is not None:
+            f, x, y, ety, fallible = self.zip_parts(e, env)
+            if fallible: die("a panicking closure is only supported as the right-hand side of an assignment")
+            return "(List.zipWith %s %s %s)" % (f, x, y), "L(%s)" % ety
         if recv == ("path", ["self"]):
             key = "self." + name
             if key in self.calls:
@@ -336,6 +368,11 @@ class FlowEmit:
             key = self.lhs_key(lhs, env)
             v, vty, m = env[key]
             if not m: die("assignment to immutable %s" % key)
+            if op == "=" and self.zip_idiom(rhs) is not None and self.zip_parts(rhs, env)[4]:
+                f, x, y, ety, _ = self.zip_parts(rhs, env)
+                if vty != "L(%s)" % ety: die("assignment type mismatch for %s" % key)
+                return [pad + "match KOps.zipWithM %s %s %s with" % (f, x, y), pad + "| none => Flow.panic", pad + "| some zr_ =>",
+                        pad + "  let %s := zr_;" % v] + self.block(rest, tail, env, M, ind + 1)
             t, ty = self.ex(rhs, env)
             if ty != vty and not (ty == "L(?)"): die("assignment type mismatch for %s: %s vs %s" % (key, vty, ty))
             if op != "=":
